@@ -229,13 +229,14 @@ class EngineBase:
         elif isinstance(v, VList):
             out.append(v.n >= 0)
             out.append(v.off >= 0)
-            k = z3.Int(fresh_name('wf_k'))
-            el = v.at(k)
+            # quantified over the absolute index of the base array so that any mention of arr[T] triggers it
+            T = z3.Int(fresh_name('wf_T'))
+            el = VList(v.elem, v.arrs, z3.IntVal(0), v.n).at(T)
             facts = self.wf(el, st)
             facts = [f for f in facts if not z3.is_true(f)]
             if facts:
-                pats = [z3.Select(v.arrs[0], v.off + k)] if len(v.arrs) >= 1 else None
-                out.append(z3.ForAll([k], z3.Implies(z3.And(0 <= k, k < v.n), z3.And(*facts)),
+                pats = [z3.Select(v.arrs[0], T)] if len(v.arrs) >= 1 else None
+                out.append(z3.ForAll([T], z3.Implies(z3.And(v.off <= T, T < v.off + v.n), z3.And(*facts)),
                                      patterns=pats))
         return out
 
